@@ -41,7 +41,7 @@ class Cell:
 
 def new_context(extra=None):
     ctx = {'log': GuardedList(), 'glog': GuardedList(), 'gv': {}, 'cv': {}, 'fv': {}, 'v': 0, 'w': [],
-           'n': [[]], 'o': Cell()}
+           'n': [[]], 'o': Cell(), 't': ([],)}
     if extra:
         ctx.update(extra)
     return ctx
@@ -50,9 +50,12 @@ def new_context(extra=None):
 COUNTERS = {'v': ('v = v + 1', 'v'), 'w': ('w.append(1)', 'len(w)'),
             'n': ('n[0].append(1)', 'len(n[0])'), 'o': ('o.k = o.k + 1', 'o.k'),
             # 'vm': as 'v', but conditions read __old__ as the read-only mapping it is
-            'vm': ('v = v + 1', 'v')}
+            'vm': ('v = v + 1', 'v'),
+            # 't': a list held inside a tuple (the tuple is immutable, its content is not)
+            't': ('t[0].append(1)', 'len(t[0])')}
 OLD_EXPR = {'v': '__old__.v', 'w': 'len(__old__.w)', 'n': 'len(__old__.n[0])',
-            'o': '__old__.o.k', 'vm': "(__old__['v'] + 0 * len(dict(__old__)))"}
+            'o': '__old__.o.k', 'vm': "(__old__['v'] + 0 * len(dict(__old__)))",
+            't': 'len(__old__.t[0])'}
 
 
 def _sends(lst, val='v'):
@@ -133,7 +136,7 @@ def cond_code_fn(cid, with_old, counter='v'):
     return "chk(%d, None, %s)" % (cid, sr)
 
 
-_TID = re.compile(r"log\.append\(\('tr', (\d+), (?:v|len\(w\)|len\(n\[0\]\)|o\.k), time\)\)")
+_TID = re.compile(r"log\.append\(\('tr', (\d+), (?:v|len\(w\)|len\(n\[0\]\)|o\.k|len\(t\[0\]\)), time\)\)")
 _SID = re.compile(r"log\.append\(\('(?:en|ex)', (\d+), v, time\)\)")
 
 
